@@ -20,7 +20,7 @@ COQ = os.path.join(ROOT, "coq")
 OCAML = os.path.join(ROOT, "ocaml")
 HARNESS = os.path.join(ROOT, "harness")
 REPO = os.environ.get("VERIF_REPO", "/repo")
-VH = os.path.join(HARNESS, "vh")
+VH = os.path.join(HARNESS, "vh_cover" if os.environ.get("VERIF_COVER") else "vh")
 VMODEL = os.path.join(OCAML, "_build", "default", "main.exe")
 NCPU = os.cpu_count() or 4
 
@@ -80,13 +80,25 @@ def build_model():
     return rc == 0 and os.path.exists(VMODEL), out
 
 
+COVER_FLAGS = "-cover -coverpkg=github.com/amzn/ion-go/ion,github.com/amzn/ion-go/cmd/ion-go"
+
+
+def cover_mode():
+    """VERIF_COVER=<dir>: build the Go side with coverage counters and let every harness process end by itself so that
+    the counters are written to <dir> (tools/gocover.py: which statements of /repo the correspondence inputs reach)."""
+    d = os.environ.get("VERIF_COVER")
+    if d:
+        os.environ["GOCOVERDIR"] = d
+    return bool(d)
+
+
 def build_harness(race=False):
     """Build vh against /repo's current working tree with the verif tag."""
     sh("cp %s/go.sum %s/go.sum" % (REPO, HARNESS))
     if REPO != "/repo":
         sh("go mod edit -replace github.com/amzn/ion-go=%s" % REPO, cwd=HARNESS, env=GOENV)
     out_bin = VH + ("_race" if race else "")
-    cmd = "go build -tags verif %s -o %s ./cmd/vh" % ("-race" if race else "", out_bin)
+    cmd = "go build -tags verif %s %s -o %s ./cmd/vh" % ("-race" if race else "", COVER_FLAGS if cover_mode() else "", out_bin)
     env = dict(GOENV)
     if race:
         env["CGO_ENABLED"] = "1"
@@ -314,6 +326,11 @@ def _run_go_serial(lines, binary, per_case_timeout, env, retry=True):
             if len(res) - n0 >= len(todo):
                 break
         done[0] = True
+        if cover_mode() and len(res) - n0 >= len(todo):
+            try:
+                p.wait(20)               # stdin is closed: the process ends by itself and writes its counters
+            except Exception:
+                pass
         _killgroup(p)
         p.wait()
         et.join(2)
@@ -534,7 +551,8 @@ def finish(ctx, theorems, level, proofs, proof_log_ok, explanation, assumptions,
         "wall_s": round(time.time() - ctx.t0, 2),
         "violations": len(violations),
     }
-    json.dump(ev, open(os.path.join(ROOT, "evidence", ctx.prop + ".json"), "w"), indent=1)
+    evdir = os.path.join(ROOT, "coverage", "raw") if cover_mode() else os.path.join(ROOT, "evidence")   # a coverage run is not evidence
+    json.dump(ev, open(os.path.join(evdir, ctx.prop + ".json"), "w"), indent=1)
     if rc == 0:
         print("OK property=%s tier=%s evaluations=%d distinct_nontrivial=%d theorems=%d/%d wall=%.1fs" %
               (ctx.prop, ctx.tier, ctx.evaluations, len(ctx.distinct), discharged, obligations, time.time() - ctx.t0))
